@@ -118,27 +118,30 @@ theorem addTag_layS (sz : Tag → Nat) (r : R) (t : Tag) (hl : LayS sz r.tags) (
         · exact Or.inr hx
 
 theorem entriesLoop_gen {F : Bytes} (tb : Tables) (ifd : Ifd) (buf : Bytes) (D : Nat) (sz : Tag → Nat)
-    (hsz : ∀ t : Tag, t.typ ≠ tIfd → sz t = t.size) (Old : Tag → Prop) (base : Nat) : ∀ (n i : Nat) (r r' : R),
+    (Old : Tag → Prop) : ∀ (n i : Nat) (r r' : R),
     Coh F r → Exact F r → r.po ≤ D → r.pos = 0 → LayS sz r.tags →
     (∀ x ∈ r.tags, Old x ∨ ∃ k, k < i ∧ entryAt ifd buf k = .ok (some x) ∧ x.isEmbedded = false) →
-    r.tags.length ≤ base + i → base + i + n ≤ 83 →
-    (∀ k t, k < i + n → entryAt ifd buf k = .ok (some t) → Good F D r.exifLength (readLimit r) t) →
+    (∀ l : List Tag, LayS sz l → (∀ x ∈ l, Old x ∨ ∃ k, k < i + n ∧ entryAt ifd buf k = .ok (some x) ∧ x.isEmbedded = false) → l.length ≤ 83) →
+    (∀ k t, k < i + n → entryAt ifd buf k = .ok (some t) → (t.isEmbedded = true → ¬ Reads t) ∧ (t.isEmbedded = false → D ≤ t.off ∧ 0 < sz t)) →
     (∀ k k' t t', k < i + n → k' < i + n → k ≠ k' → entryAt ifd buf k = .ok (some t) → entryAt ifd buf k' = .ok (some t') →
       t.isEmbedded = false → t'.isEmbedded = false → DisjS sz t t') →
     (∀ x, Old x → 0 < sz x ∧ ∀ k t, k < i + n → entryAt ifd buf k = .ok (some t) → t.isEmbedded = false → DisjS sz t x) →
     entriesLoop tb ifd buf n i r = .ok r' →
     Coh F r' ∧ Exact F r' ∧ r'.po = r.po ∧ r'.pos = 0 ∧ r'.exifLength = r.exifLength ∧ readLimit r' = readLimit r ∧ LayS sz r'.tags ∧
     (∀ x ∈ r'.tags, Old x ∨ ∃ k, k < i + n ∧ entryAt ifd buf k = .ok (some x) ∧ x.isEmbedded = false) ∧
-    (∀ x ∈ r.tags, x ∈ r'.tags) ∧ r'.tags.length ≤ base + i + n := by
+    (∀ x ∈ r.tags, x ∈ r'.tags) := by
   intro n
   induction n with
   | zero =>
-    intro i r r' hc he _ hpos hlay hmem hlen _ _ _ _ h
+    intro i r r' hc he _ hpos hlay hmem _ _ _ _ h
     unfold Exif.entriesLoop at h
     simp only [Outcome.ok.injEq] at h; subst h
-    exact ⟨hc, he, rfl, hpos, rfl, rfl, hlay, hmem, fun x hx => hx, hlen⟩
+    exact ⟨hc, he, rfl, hpos, rfl, rfl, hlay, hmem, fun x hx => hx⟩
   | succ n ih =>
-    intro i r r' hc he hD hpos hlay hmem hlen hn hgood hdisj hold h
+    intro i r r' hc he hD hpos hlay hmem hcap hgood hdisj hold h
+    have hcap' : ∀ l : List Tag, LayS sz l → (∀ x ∈ l, Old x ∨ ∃ k, k < i + 1 + n ∧ entryAt ifd buf k = .ok (some x) ∧ x.isEmbedded = false) → l.length ≤ 83 := by
+      intro l hl hm
+      exact hcap l hl (fun x hx => by rcases hm x hx with ho | ⟨k, hk, hr⟩; exact Or.inl ho; exact Or.inr ⟨k, by omega, hr⟩)
     unfold Exif.entriesLoop at h
     obtain ⟨e, hslc, h⟩ := bind_ok h
     obtain ⟨ot, hdec, h⟩ := bind_ok h
@@ -152,12 +155,12 @@ theorem entriesLoop_gen {F : Bytes} (tb : Tables) (ifd : Ifd) (buf : Bytes) (D :
         (∀ x ∈ r.tags, x ∈ r2.tags) →
         (Coh F r' ∧ Exact F r' ∧ r'.po = r2.po ∧ r'.pos = 0 ∧ r'.exifLength = r2.exifLength ∧ readLimit r' = readLimit r2 ∧ LayS sz r'.tags ∧
           (∀ x ∈ r'.tags, Old x ∨ ∃ k, k < i + 1 + n ∧ entryAt ifd buf k = .ok (some x) ∧ x.isEmbedded = false) ∧
-          (∀ x ∈ r2.tags, x ∈ r'.tags) ∧ r'.tags.length ≤ base + (i + 1) + n) →
+          (∀ x ∈ r2.tags, x ∈ r'.tags)) →
         Coh F r' ∧ Exact F r' ∧ r'.po = r.po ∧ r'.pos = 0 ∧ r'.exifLength = r.exifLength ∧ readLimit r' = readLimit r ∧ LayS sz r'.tags ∧
           (∀ x ∈ r'.tags, Old x ∨ ∃ k, k < i + (n + 1) ∧ entryAt ifd buf k = .ok (some x) ∧ x.isEmbedded = false) ∧
-          (∀ x ∈ r.tags, x ∈ r'.tags) ∧ r'.tags.length ≤ base + i + (n + 1) := by
-      intro r2 e1 e2 e3 hsub ⟨a, b, c, d, e4, f, g, hh, hs, hl⟩
-      refine ⟨a, b, by rw [c, e1], d, by rw [e4, e2], by rw [f, e3], g, ?_, fun x hx => hs x (hsub x hx), by omega⟩
+          (∀ x ∈ r.tags, x ∈ r'.tags) := by
+      intro r2 e1 e2 e3 hsub ⟨a, b, c, d, e4, f, g, hh, hs⟩
+      refine ⟨a, b, by rw [c, e1], d, by rw [e4, e2], by rw [f, e3], g, ?_, fun x hx => hs x (hsub x hx)⟩
       intro x hx
       rcases hh x hx with ho | ⟨k, hk, hr⟩
       · exact Or.inl ho
@@ -167,7 +170,7 @@ theorem entriesLoop_gen {F : Bytes} (tb : Tables) (ifd : Ifd) (buf : Bytes) (D :
     cases ot with
     | none =>
       dsimp only at h
-      exact fin r rfl rfl rfl (fun x hx => hx) (ih (i + 1) r r' hc he hD hpos hlay hmem' (by omega) (by omega)
+      exact fin r rfl rfl rfl (fun x hx => hx) (ih (i + 1) r r' hc he hD hpos hlay hmem' hcap'
         (fun k t hk => hgood k t (by omega)) (fun k k' t t' hk hk' => hdisj k k' t t' (by omega) (by omega)) hold' h)
     | some t =>
       dsimp only at h
@@ -175,27 +178,29 @@ theorem entriesLoop_gen {F : Bytes} (tb : Tables) (ifd : Ifd) (buf : Bytes) (D :
       split at h
       · rename_i hemb
         obtain ⟨r1, h1, h⟩ := bind_ok h
-        have hs := parseTag_quiet tb r r1 t (hg.2.2.1 hemb) h1
+        have hs := parseTag_quiet tb r r1 t (hg.1 hemb) h1
         have hc1 : Coh F r1 := ⟨by rw [hs.rest, hs.po]; exact hc.rest, by rw [hs.po]; exact hc.le, hc.small⟩
         have he1 : Exact F r1 := by intro x hx; rw [hs.reads] at hx; exact he x hx
         have hl1 : readLimit r1 = readLimit r := by unfold readLimit; rw [hs.buffered]
         exact fin r1 hs.po hs.exl hl1 (by rw [hs.tags]; exact fun x hx => hx)
           (ih (i + 1) r1 r' hc1 he1 (by rw [hs.po]; exact hD) (by rw [hs.pos]; exact hpos) (by rw [hs.tags]; exact hlay)
-            (by rw [hs.tags]; exact hmem') (by rw [hs.tags]; omega) (by omega)
-            (fun k t hk hd => by rw [hs.exl, hl1]; exact hgood k t (by omega) hd)
+            (by rw [hs.tags]; exact hmem') hcap'
+            (fun k t hk hd => hgood k t (by omega) hd)
             (fun k k' t t' hk hk' => hdisj k k' t t' (by omega) (by omega)) hold' h)
       · rename_i hemb
         have hemb' : t.isEmbedded = false := by simpa using hemb
-        have hout := hg.2.2.2 hemb'
-        have hsz0 := size_pos_of_outofline t hg.1 hemb'
-        have hszt : 0 < sz t := by rw [hsz t hg.1]; exact hsz0
+        have hout := hg.2 hemb'
+        have hszt : 0 < sz t := hout.2
         have hd : ∀ x ∈ r.tags, DisjS sz t x ∧ 0 < sz x := by
           intro x hx
           rcases hmem x hx with ho | ⟨k, hk, hxe, hxo⟩
           · exact ⟨(hold x ho).2 i t (by omega) hent hemb', (hold x ho).1⟩
           · have hgx := hgood k x (by omega) hxe
-            exact ⟨hdisj i k t x (by omega) (by omega) (by omega) hent hxe hemb' hxo, by rw [hsz x hgx.1]; exact size_pos_of_outofline x hgx.1 hxo⟩
-        have ha := addTag_layS sz r t hlay (by omega) (by unfold tagMaxCount; omega) hszt hd
+            exact ⟨hdisj i k t x (by omega) (by omega) (by omega) hent hxe hemb' hxo, (hgx.2 hxo).2⟩
+        have hlen84 : r.tags.length < tagMaxCount := by
+          have := hcap r.tags hlay (fun x hx => by rcases hmem x hx with ho | ⟨k, hk, hr⟩; exact Or.inl ho; exact Or.inr ⟨k, by omega, hr⟩)
+          unfold tagMaxCount; omega
+        have ha := addTag_layS sz r t hlay (by omega) hlen84 hszt hd
         obtain ⟨hl2, hm2, hsub2, hlen2, hs⟩ := ha
         have hpo1 : (addTag r t).po = r.po := hs.po
         have hrest1 : (addTag r t).rest = r.rest := hs.rest
@@ -212,23 +217,48 @@ theorem entriesLoop_gen {F : Bytes} (tb : Tables) (ifd : Ifd) (buf : Bytes) (D :
           · exact Or.inr ⟨i, by omega, hent, hemb'⟩
           · exact hmem' x hx
         exact fin (addTag r t) hpo1 hexl1 hl1 hsub2
-          (ih (i + 1) (addTag r t) r' hc1 he1 (by rw [hpo1]; exact hD) (by rw [hpos1]; exact hpos) hl2 hmem1 (by omega) (by omega)
-            (fun k t hk hd => by rw [hexl1, hl1]; exact hgood k t (by omega) hd)
+          (ih (i + 1) (addTag r t) r' hc1 he1 (by rw [hpo1]; exact hD) (by rw [hpos1]; exact hpos) hl2 hmem1 hcap'
+            (fun k t hk hd => hgood k t (by omega) hd)
             (fun k k' t t' hk hk' => hdisj k k' t t' (by omega) (by omega)) hold' h)
 
 /-- the out-of-line entries of the directory at d, as the reader decodes them -/
 def IsEntry (F : Bytes) (ifd : Ifd) (d cnt : Nat) (x : Tag) : Prop :=
   ∃ k, k < cnt ∧ entryAt ifd ((F.drop (d + 2)).take (cnt * 12)) k = .ok (some x) ∧ x.isEmbedded = false
 
+/-- what reading a directory at d needs, with extents given by `sz` (entries may be pointers) -/
+structure DirOK (F : Bytes) (ifd : Ifd) (d cnt exl lim : Nat) (sz : Tag → Nat) : Prop where
+  inFile : d + 2 + 12 * cnt + 4 ≤ F.length
+  inExif : d + 2 + 12 * cnt + 4 ≤ exl
+  count : u16 ifd.order ((F.drop d).take 2) = .ok cnt
+  small : cnt ≤ 83
+  window : 12 * cnt ≤ lim
+  good : ∀ k t, k < cnt → entryAt ifd ((F.drop (d + 2)).take (cnt * 12)) k = .ok (some t) →
+    (t.isEmbedded = true → ¬ Reads t) ∧ (t.isEmbedded = false → d + 2 + 12 * cnt + 4 ≤ t.off ∧ 0 < sz t)
+  disj : ∀ k k' t t', k < cnt → k' < cnt → k ≠ k' → entryAt ifd ((F.drop (d + 2)).take (cnt * 12)) k = .ok (some t) →
+    entryAt ifd ((F.drop (d + 2)).take (cnt * 12)) k' = .ok (some t') → t.isEmbedded = false → t'.isEmbedded = false → DisjS sz t t'
+  next : ifd.typ = ifd0 → u32 ifd.order ((F.drop (d + 2 + 12 * cnt)).take 4) = .ok 0
+
+theorem FlatDir.dirOK {F : Bytes} {ifd : Ifd} {d cnt exl lim : Nat} (h : FlatDir F ifd d cnt exl lim) (sz : Tag → Nat)
+    (hsz : ∀ t : Tag, t.typ ≠ tIfd → sz t = t.size) : DirOK F ifd d cnt exl lim sz := by
+  refine ⟨h.inFile, h.inExif, h.count, h.small, h.window, ?_, ?_, h.next⟩
+  · intro k t hk e
+    have g := h.good k t hk e
+    exact ⟨g.2.2.1, fun ho => ⟨(g.2.2.2 ho).1, by rw [hsz t g.1]; exact size_pos_of_outofline t g.1 ho⟩⟩
+  · intro k k' t t' hk hk' hne e e' o o'
+    have := h.disj k k' t t' hk hk' hne e e' o o'
+    have g1 := h.good k t hk e
+    have g2 := h.good k' t' hk' e'
+    unfold DisjS; rw [hsz t g1.1, hsz t' g2.1]; exact this
+
 theorem readIfdHeader_gen {F : Bytes} (tb : Tables) (ifd : Ifd) (r r1 : R) (e1 : Option ErrKind) (cnt : Nat) (sz : Tag → Nat)
-    (hsz : ∀ t : Tag, t.typ ≠ tIfd → sz t = t.size) (Old : Tag → Prop) (base : Nat)
+    (Old : Tag → Prop)
     (hc : Coh F r) (he : Exact F r) (hpos : r.pos = 0) (hlay : LayS sz r.tags) (hmem : ∀ x ∈ r.tags, Old x)
-    (hlen : r.tags.length ≤ base) (hb : base + cnt ≤ 83)
-    (hd : FlatDir F ifd r.po cnt r.exifLength (readLimit r))
+    (hcap : ∀ l : List Tag, LayS sz l → (∀ x ∈ l, Old x ∨ IsEntry F ifd r.po cnt x) → l.length ≤ 83)
+    (hd : DirOK F ifd r.po cnt r.exifLength (readLimit r) sz)
     (hold : ∀ x, Old x → 0 < sz x ∧ ∀ t, IsEntry F ifd r.po cnt t → DisjS sz t x)
     (h : readIfdHeader tb r ifd = .ok (r1, e1)) :
     Coh F r1 ∧ Exact F r1 ∧ r1.po ≤ r.po + 2 + 12 * cnt + 4 ∧ r1.pos = 0 ∧ r1.exifLength = r.exifLength ∧ readLimit r1 = readLimit r ∧
-    LayS sz r1.tags ∧ (∀ x ∈ r1.tags, Old x ∨ IsEntry F ifd r.po cnt x) ∧ (∀ x ∈ r.tags, x ∈ r1.tags) ∧ r1.tags.length ≤ base + cnt := by
+    LayS sz r1.tags ∧ (∀ x ∈ r1.tags, Old x ∨ IsEntry F ifd r.po cnt x) ∧ (∀ x ∈ r.tags, x ∈ r1.tags) := by
   have hF := hd.inFile
   have hx := hd.inExif
   have hcnt := hd.count
@@ -258,21 +288,13 @@ theorem readIfdHeader_gen {F : Bytes} (tb : Tables) (ifd : Ifd) (r r1 : R) (e1 :
   obtain ⟨r3, hloop, hnx⟩ := bind_ok h
   rw [hbuf3] at hloop
   have hE3 : Exact F (fastRead (fastRead r 2).r (cnt * 12)).r := by intro x hx; rw [hk3.reads] at hx; exact he x hx
-  have hdisjS : ∀ k k' t t', k < 0 + cnt → k' < 0 + cnt → k ≠ k' →
-      entryAt ifd ((F.drop (r.po + 2)).take (cnt * 12)) k = .ok (some t) → entryAt ifd ((F.drop (r.po + 2)).take (cnt * 12)) k' = .ok (some t') →
-      t.isEmbedded = false → t'.isEmbedded = false → DisjS sz t t' := by
-    intro k k' t t' hk hk' hne e e' o o'
-    have := hd.disj k k' t t' (by omega) (by omega) hne e e' o o'
-    have g1 := hd.good k t (by omega) e
-    have g2 := hd.good k' t' (by omega) e'
-    unfold DisjS; rw [hsz t g1.1, hsz t' g2.1]; exact this
-  have hgen := entriesLoop_gen (F := F) tb ifd _ (r.po + 2 + 12 * cnt + 4) sz hsz Old base cnt 0 _ r3 hc3 hE3 (by rw [hpo3]; omega)
+  have hgen := entriesLoop_gen (F := F) tb ifd _ (r.po + 2 + 12 * cnt + 4) sz Old cnt 0 _ r3 hc3 hE3 (by rw [hpo3]; omega)
     (by rw [hk3.pos]; exact hpos) (by rw [hk3.tags]; exact hlay) (by rw [hk3.tags]; exact fun x hx => Or.inl (hmem x hx))
-    (by rw [hk3.tags]; omega) (by omega)
-    (fun k t hk hdd => by rw [hk3.exl, hlim3]; exact hd.good k t (by omega) hdd)
-    hdisjS
+    (fun l hl hm => hcap l hl (fun x hx => by rcases hm x hx with ho | ⟨k, hk, e, o⟩; exact Or.inl ho; exact Or.inr ⟨k, by omega, e, o⟩))
+    (fun k t hk hdd => hd.good k t (by omega) hdd)
+    (fun k k' t t' hk hk' => hd.disj k k' t t' (by omega) (by omega))
     (fun x hx => ⟨(hold x hx).1, fun k t hk e o => (hold x hx).2 t ⟨k, by omega, e, o⟩⟩) hloop
-  obtain ⟨hc4, he4, hpo4, hpos4, hexl4, hlim4, hlay4, hmem4, hsub4, hlen4⟩ := hgen
+  obtain ⟨hc4, he4, hpo4, hpos4, hexl4, hlim4, hlay4, hmem4, hsub4⟩ := hgen
   rw [hpo3] at hpo4
   rw [hk3.exl] at hexl4
   rw [hlim3] at hlim4
@@ -303,10 +325,352 @@ theorem readIfdHeader_gen {F : Bytes} (tb : Tables) (ifd : Ifd) (r r1 : R) (e1 :
     rw [← hnx.1]
     have hl5 : readLimit (fastRead r3 4).r = readLimit r := by unfold readLimit at hlim4 ⊢; rw [hk5.buffered]; exact hlim4
     refine ⟨hc5, by intro x hx; rw [hk5.reads] at hx; exact he4 x hx, by rw [hr5.2.2, hpo4]; omega, by rw [hk5.pos]; exact hpos4,
-      by rw [hk5.exl]; exact hexl4, hl5, by rw [hk5.tags]; exact hlay4, by rw [hk5.tags]; exact hmem5, by rw [hk5.tags]; exact hsub4,
-      by rw [hk5.tags]; omega⟩
+      by rw [hk5.exl]; exact hexl4, hl5, by rw [hk5.tags]; exact hlay4, by rw [hk5.tags]; exact hmem5, by rw [hk5.tags]; exact hsub4⟩
   · simp only [Outcome.ok.injEq, Prod.mk.injEq] at hnx
     rw [← hnx.1]
-    exact ⟨hc4, he4, by rw [hpo4]; omega, hpos4, hexl4, hlim4, hlay4, hmem5, hsub4, by omega⟩
+    exact ⟨hc4, he4, by rw [hpo4]; omega, hpos4, hexl4, hlim4, hlay4, hmem5, hsub4⟩
+
+/-! ### the walk over IFD0 with pointers to flat Exif and GPS directories -/
+
+def IsPtr (t : Tag) : Prop := t.typ = tIfd ∧ t.ifd = ifd0 ∧ (t.id = 0x8825 ∨ t.id = 0x8769)
+
+/-- the entry count of the directory a pointer tag points at, as written in the file -/
+def ptrCount (F : Bytes) (t : Tag) : Nat :=
+  match u16 t.order ((F.drop t.off).take 2) with
+  | .ok c => c
+  | _ => 0
+
+/-- the bytes a pending tag stands for: its value, or the directory (count, entries, next pointer) it points at -/
+def extent (F : Bytes) (t : Tag) : Nat := if t.typ = tIfd then 2 + 12 * ptrCount F t + 4 else t.size
+
+theorem extent_value (F : Bytes) (t : Tag) (h : t.typ ≠ tIfd) : extent F t = t.size := by unfold extent; rw [if_neg h]
+theorem extent_ptr (F : Bytes) (t : Tag) (h : t.typ = tIfd) : extent F t = 2 + 12 * ptrCount F t + 4 := by unfold extent; rw [if_pos h]
+
+/-- the layout: which tags belong to it (W), what is asked of them -/
+structure World (F : Bytes) (exl lim : Nat) (W : Tag → Prop) : Prop where
+  ok : ∀ x, W x → (x.typ ≠ tIfd ∧ ¬(x.id = 0x014a ∧ x.ifd = ifd0) ∧ x.isEmbedded = false ∧ x.off + x.size ≤ F.length ∧
+      x.off + x.size ≤ exl ∧ x.size ≤ lim) ∨ (IsPtr x ∧ FlatDir F x.childIfd x.off (ptrCount F x) exl lim)
+  disj : ∀ x y, W x → W y → x ≠ y → DisjS (extent F) x y
+  child : ∀ p, W p → IsPtr p → ∀ c, IsEntry F p.childIfd p.off (ptrCount F p) c → W c
+  uniq : ∀ p q, W p → W q → IsPtr p → IsPtr q → p.id = q.id → p = q
+  cap : ∀ l : List Tag, LayS (extent F) l → (∀ x ∈ l, W x) → l.length ≤ 83
+
+theorem World.extent_pos {F : Bytes} {exl lim : Nat} {W : Tag → Prop} (w : World F exl lim W) (x : Tag) (hx : W x) : 0 < extent F x := by
+  rcases w.ok x hx with h | h
+  · rw [extent_value F x h.1]; exact size_pos_of_outofline x h.1 h.2.2.1
+  · rw [extent_ptr F x h.1.1]; omega
+
+theorem entry_ifd (ifd : Ifd) (buf : Bytes) (k : Nat) (c : Tag) (h : entryAt ifd buf k = .ok (some c)) : c.ifd = ifd.typ := by
+  unfold entryAt at h
+  obtain ⟨e, _, h⟩ := bind_ok h
+  unfold tagFromBuffer at h
+  obtain ⟨id, _, h⟩ := bind_ok h
+  obtain ⟨ty, _, h⟩ := bind_ok h
+  obtain ⟨cnt, _, h⟩ := bind_ok h
+  obtain ⟨vo, _, h⟩ := bind_ok h
+  dsimp only at h
+  split at h
+  · simp only [Outcome.ok.injEq, Option.some.injEq] at h; rw [← h]
+  · simp at h
+
+theorem lay_head (sz : Tag → Nat) (l : List Tag) (p : Tag) (hl : LayS sz l) (hp : p ∈ l)
+    (hmin : ∀ x ∈ l, x = p ∨ p.off + sz p ≤ x.off) (hpos : ∀ x ∈ l, 0 < sz x) : ∃ tl, l = p :: tl := by
+  cases l with
+  | nil => cases hp
+  | cons h tl =>
+    by_cases hh : h = p
+    · exact ⟨tl, by rw [hh]⟩
+    · exfalso
+      rw [List.mem_cons] at hp
+      rcases hp with rfl | hp
+      · exact hh rfl
+      · unfold LayS at hl
+        rw [List.pairwise_cons] at hl
+        have h1 := hl.1 p hp
+        rcases hmin h (by simp) with h2 | h2
+        · exact hh h2
+        · have := hpos h (by simp); have := hpos p (by simp [hp]); omega
+
+theorem reset_queue (r : R) : (resetPosition r).tags = r.tags.drop r.pos ∧ (resetPosition r).pos = 0 ∧
+    (resetPosition r).rest = r.rest ∧ (resetPosition r).po = r.po ∧ (resetPosition r).exifLength = r.exifLength ∧
+    (resetPosition r).buffered = r.buffered ∧ (resetPosition r).reads = r.reads := by
+  unfold resetPosition
+  split
+  · exact ⟨rfl, rfl, rfl, rfl, rfl, rfl, rfl⟩
+  · rename_i h
+    have : r.pos = 0 := by omega
+    exact ⟨by rw [this]; rfl, this, rfl, rfl, rfl, rfl, rfl⟩
+
+/-- the invariant of the work loop in a nested forward layout -/
+structure NInv (F : Bytes) (exl lim : Nat) (W : Tag → Prop) (r : R) : Prop where
+  coh : Coh F r
+  exact : Exact F r
+  exl : r.exifLength = exl
+  lim : readLimit r = lim
+  lay : LayS (extent F) (r.tags.drop r.pos)
+  inW : ∀ x ∈ r.tags.drop r.pos, W x
+  fwd : ∀ x ∈ r.tags.drop r.pos, r.po ≤ x.off
+  fresh : ∀ p ∈ r.tags.drop r.pos, IsPtr p → ∀ x ∈ r.tags.drop r.pos, x.ifd ≠ p.childIfd.typ
+
+theorem childType_ne (p q : Tag) (hp : IsPtr p) (hq : IsPtr q) (hne : p.id ≠ q.id) : p.childIfd.typ ≠ q.childIfd.typ := by
+  unfold Tag.childIfd
+  dsimp only
+  rw [if_pos hp.2.1, if_pos hq.2.1]
+  rcases hp.2.2 with h1 | h1 <;> rcases hq.2.2 with h2 | h2
+  · omega
+  · rw [h1, h2]; decide
+  · rw [h1, h2]; decide
+  · omega
+
+theorem childType_ne_ifd0 (p : Tag) (hp : IsPtr p) : ifd0 ≠ p.childIfd.typ := by
+  unfold Tag.childIfd
+  dsimp only
+  rw [if_pos hp.2.1]
+  rcases hp.2.2 with h1 | h1
+  · rw [h1]; decide
+  · rw [h1]; decide
+
+theorem ifdLoop_nested {F : Bytes} {exl lim : Nat} {W : Tag → Prop} (w : World F exl lim W) (tb : Tables) :
+    ∀ (f : Nat) (r r' : R), NInv F exl lim W r → ifdLoop tb f r = .ok r' → Coh F r' ∧ Exact F r' := by
+  intro f
+  induction f with
+  | zero => intro r r' _ h; unfold Exif.ifdLoop at h; cases h
+  | succ f ih =>
+    intro r r' inv h
+    unfold Exif.ifdLoop at h
+    split at h
+    · rename_i hlt
+      have hget : r.tags[r.pos]? = some r.tags[r.pos] := List.getElem?_eq_getElem hlt
+      have hdrop : r.tags.drop r.pos = r.tags[r.pos] :: r.tags.drop (r.pos + 1) := List.drop_eq_getElem_cons hlt
+      rw [hget] at h
+      dsimp only at h
+      generalize ht : r.tags[r.pos] = t at h hdrop
+      have hlayQ := inv.lay
+      rw [hdrop] at hlayQ
+      unfold LayS at hlayQ
+      rw [List.pairwise_cons] at hlayQ
+      have htW : W t := inv.inW t (by rw [hdrop]; simp)
+      have htfwd : r.po ≤ t.off := inv.fwd t (by rw [hdrop]; simp)
+      rcases w.ok t htW with hv | hp
+      · -- a value tag
+        rw [if_neg hv.1, if_neg hv.2.1] at h
+        obtain ⟨r1, h1, h⟩ := bind_ok h
+        have hpf := parseTag_forward tb r r1 t inv.coh inv.exact htfwd hv.2.2.2.1 (by rw [inv.exl]; exact hv.2.2.2.2.1)
+          (by rw [inv.lim]; exact hv.2.2.2.2.2) h1
+        obtain ⟨hc1, he1, hpo1, htags, hpos, hexl, hl1⟩ := hpf
+        apply ih { r1 with pos := r1.pos + 1 } r' _ h
+        have hq : ({ r1 with pos := r1.pos + 1 } : R).tags.drop ({ r1 with pos := r1.pos + 1 } : R).pos = r.tags.drop (r.pos + 1) := by
+          show r1.tags.drop (r1.pos + 1) = _
+          rw [htags, hpos]
+        refine ⟨⟨hc1.rest, hc1.le, hc1.small⟩, he1, hexl.trans inv.exl, hl1.trans inv.lim, ?_, ?_, ?_, ?_⟩
+        · rw [hq]; exact hlayQ.2
+        · rw [hq]; intro x hx; exact inv.inW x (by rw [hdrop]; exact List.mem_cons_of_mem _ hx)
+        · rw [hq]; intro x hx
+          have := hlayQ.1 x hx
+          rw [extent_value F t hv.1] at this
+          show r1.po ≤ x.off
+          omega
+        · rw [hq]; intro p hp hip x hx
+          exact inv.fresh p (by rw [hdrop]; exact List.mem_cons_of_mem _ hp) hip x (by rw [hdrop]; exact List.mem_cons_of_mem _ hx)
+      · -- a pointer to a flat directory
+        obtain ⟨hip, hfd⟩ := hp
+        rw [if_pos hip.1] at h
+        have hk : ((t.off : Int) - r.po) = ((t.off - r.po : Nat) : Int) := by omega
+        rw [hk] at h
+        have hinF := hfd.inFile
+        have hinX := hfd.inExif
+        have hde := discard_exact inv.coh (t.off - r.po) (by omega) (by rw [inv.exl]; omega)
+        have hcd := inv.coh.discard ((t.off - r.po : Nat) : Int)
+        have hkd := Keep.discard r ((t.off - r.po : Nat) : Int)
+        generalize hdd : Exif.discard r ((t.off - r.po : Nat) : Int) = pr at h hde hcd hkd
+        obtain ⟨r1, e1⟩ := pr
+        dsimp only at h hde hcd hkd
+        have hpo1 : r1.po = t.off := by rw [hde.2]; omega
+        obtain ⟨r3, h3, h⟩ := bind_ok h
+        have hrq := reset_queue r1
+        obtain ⟨hq2, hpos2, hrest2, hpo2, hexl2, hbuf2, hrd2⟩ := hrq
+        have hQ2 : (resetPosition r1).tags = t :: r.tags.drop (r.pos + 1) := by rw [hq2, hkd.tags, hkd.pos, hdrop]
+        have hc2 : Coh F (resetPosition r1) := ⟨by rw [hrest2, hpo2]; exact hcd.rest, by rw [hpo2]; exact hcd.le, hcd.small⟩
+        have he2 : Exact F (resetPosition r1) := by intro x hx; rw [hrd2, hkd.reads] at hx; exact inv.exact x hx
+        have hl2 : readLimit (resetPosition r1) = lim := by unfold readLimit; rw [hbuf2, hkd.buffered]; exact inv.lim
+        have hx2 : (resetPosition r1).exifLength = exl := by rw [hexl2, hkd.exl]; exact inv.exl
+        unfold Exif.ifdChild at h3
+        rw [if_pos hip.2.1, if_pos hip.2.2] at h3
+        obtain ⟨pr3, hh3, h3⟩ := bind_ok h3
+        obtain ⟨x3, e3⟩ := pr3
+        simp only [Outcome.ok.injEq] at h3
+        subst h3
+        have hOldW : ∀ x ∈ (resetPosition r1).tags, W x := by
+          intro x hx; rw [hQ2] at hx; exact inv.inW x (by rw [hdrop]; exact hx)
+        have hfresh2 : ∀ x ∈ (resetPosition r1).tags, x.ifd ≠ t.childIfd.typ := by
+          intro x hx; rw [hQ2] at hx
+          exact inv.fresh t (by rw [hdrop]; simp) hip x (by rw [hdrop]; exact hx)
+        have hgen := readIfdHeader_gen (F := F) tb t.childIfd (resetPosition r1) x3 e3 (ptrCount F t) (extent F)
+          (fun x => x ∈ (resetPosition r1).tags) hc2 he2 hpos2 (by rw [hQ2, ← hdrop]; exact inv.lay) (fun x hx => hx)
+          (fun l hl hm => w.cap l hl (fun x hx => by
+            rcases hm x hx with ho | hc
+            · exact hOldW x ho
+            · rw [hpo2, hpo1] at hc; exact w.child t htW hip x hc))
+          (by rw [hpo2, hpo1, hx2, hl2]; exact hfd.dirOK (extent F) (extent_value F))
+          (fun x hx => ⟨w.extent_pos x (hOldW x hx), fun c hc => by
+            rw [hpo2, hpo1] at hc
+            have hcW := w.child t htW hip c hc
+            obtain ⟨k, _, hce, _⟩ := hc
+            have hci := entry_ifd _ _ _ _ hce
+            exact w.disj c x hcW (hOldW x hx) (fun heq => hfresh2 x hx (by rw [← heq]; exact hci))⟩)
+          hh3
+        obtain ⟨hc3, he3, hpo3, hpos3, hexl3, hlim3, hlay3, hmem3, hsub3⟩ := hgen
+        rw [hpo2, hpo1] at hpo3 hmem3
+        have hext : extent F t = 2 + 12 * ptrCount F t + 4 := extent_ptr F t hip.1
+        -- t is still the head of the pending list
+        have hchildD : ∀ c, IsEntry F t.childIfd t.off (ptrCount F t) c → t.off + extent F t ≤ c.off ∧ c.typ ≠ tIfd := by
+          intro c hc
+          obtain ⟨k, hk, hce, hco⟩ := hc
+          have hg := hfd.good k c hk hce
+          have := (hg.2.2.2 hco).1
+          exact ⟨by rw [hext]; omega, hg.1⟩
+        have hhead : ∃ tl, x3.tags = t :: tl := by
+          apply lay_head (extent F) x3.tags t hlay3 (hsub3 t (by rw [hQ2]; simp))
+          · intro x hx
+            rcases hmem3 x hx with ho | hc
+            · rw [hQ2, List.mem_cons] at ho
+              rcases ho with rfl | ho
+              · exact Or.inl rfl
+              · exact Or.inr (hlayQ.1 x ho)
+            · exact Or.inr (hchildD x hc).1
+          · intro x hx
+            rcases hmem3 x hx with ho | hc
+            · exact w.extent_pos x (hOldW x ho)
+            · exact w.extent_pos x (w.child t htW hip x hc)
+        obtain ⟨tl, htl⟩ := hhead
+        apply ih { x3 with pos := x3.pos + 1 } r' _ h
+        have hq : ({ x3 with pos := x3.pos + 1 } : R).tags.drop ({ x3 with pos := x3.pos + 1 } : R).pos = tl := by
+          show x3.tags.drop (x3.pos + 1) = tl
+          rw [hpos3, htl]; rfl
+        have hlay3' := hlay3
+        rw [htl] at hlay3'
+        unfold LayS at hlay3'
+        rw [List.pairwise_cons] at hlay3'
+        have hmemtl : ∀ x ∈ tl, x ∈ r.tags.drop (r.pos + 1) ∨ IsEntry F t.childIfd t.off (ptrCount F t) x := by
+          intro x hx
+          have hx3 : x ∈ x3.tags := by rw [htl]; exact List.mem_cons_of_mem _ hx
+          rcases hmem3 x hx3 with ho | hc
+          · rw [hQ2, List.mem_cons] at ho
+            rcases ho with rfl | ho
+            · -- x = t would put t after itself
+              have := hlay3'.1 x hx
+              have := w.extent_pos x htW
+              omega
+            · exact Or.inl ho
+          · exact Or.inr hc
+        refine ⟨⟨hc3.rest, hc3.le, hc3.small⟩, he3, hexl3.trans hx2, hlim3.trans hl2, ?_, ?_, ?_, ?_⟩
+        · rw [hq]; exact hlay3'.2
+        · rw [hq]; intro x hx
+          rcases hmemtl x hx with ho | hc
+          · exact inv.inW x (by rw [hdrop]; exact List.mem_cons_of_mem _ ho)
+          · exact w.child t htW hip x hc
+        · rw [hq]; intro x hx
+          have := hlay3'.1 x hx
+          show x3.po ≤ x.off
+          omega
+        · rw [hq]; intro q hq' hiq x hx
+          have hqold : q ∈ r.tags.drop (r.pos + 1) := by
+            rcases hmemtl q hq' with ho | hc
+            · exact ho
+            · exact absurd hiq.1 (hchildD q hc).2
+          have hqW : W q := inv.inW q (by rw [hdrop]; exact List.mem_cons_of_mem _ hqold)
+          rcases hmemtl x hx with ho | hc
+          · exact inv.fresh q (by rw [hdrop]; exact List.mem_cons_of_mem _ hqold) hiq x (by rw [hdrop]; exact List.mem_cons_of_mem _ ho)
+          · obtain ⟨k, _, hce, _⟩ := hc
+            rw [entry_ifd _ _ _ _ hce]
+            apply childType_ne t q hip hiq
+            intro hid
+            have heq := w.uniq t q htW hqW hip hiq hid
+            have h1 := hlayQ.1 q hqold
+            have h2 := w.extent_pos t htW
+            rw [← heq] at h1
+            omega
+    · simp only [Outcome.ok.injEq] at h; rw [← h]; exact ⟨inv.coh, inv.exact⟩
+
+/-- readIfd on a root directory whose entries are value tags or pointers to flat Exif / GPS directories, everything in
+a forward layout without overlap (`World`): coherent reader, every read exact -/
+theorem readIfd_nested {F : Bytes} {W : Tag → Prop} (tb : Tables) (fuel : Nat) (ifd : Ifd) (r r' : R) (e : Option ErrKind) (cnt : Nat)
+    (w : World F r.exifLength (readLimit r) W)
+    (hc : Coh F r) (he : Exact F r) (htags : r.tags = []) (hpos : r.pos = 0)
+    (hroot : DirOK F ifd r.po cnt r.exifLength (readLimit r) (extent F))
+    (hrootW : ∀ x, IsEntry F ifd r.po cnt x → W x)
+    (h : readIfd tb fuel r ifd = .ok (r', e)) : Coh F r' ∧ Exact F r' := by
+  unfold Exif.readIfd at h
+  obtain ⟨p, hp, h⟩ := bind_ok h
+  obtain ⟨r1, e1⟩ := p
+  have hgen := readIfdHeader_gen (F := F) tb ifd r r1 e1 cnt (extent F) (fun _ => False) hc he hpos
+    (by rw [htags]; unfold LayS; simp) (by rw [htags]; intro x hx; cases hx)
+    (fun l hl hm => w.cap l hl (fun x hx => by rcases hm x hx with ho | hc'; exact absurd ho id; exact hrootW x hc'))
+    hroot (fun x hx => absurd hx id) hp
+  obtain ⟨hc1, he1, hpo1, hpos1, hexl1, hlim1, hlay1, hmem1, _⟩ := hgen
+  dsimp only at h
+  split at h
+  · simp only [Outcome.ok.injEq, Prod.mk.injEq] at h; rw [← h.1]; exact ⟨hc1, he1⟩
+  · obtain ⟨r2, h2, h⟩ := bind_ok h
+    simp only [Outcome.ok.injEq, Prod.mk.injEq] at h; rw [← h.1]
+    have hent : ∀ x ∈ r1.tags, IsEntry F ifd r.po cnt x := by
+      intro x hx; rcases hmem1 x hx with ho | hc'; exact absurd ho id; exact hc'
+    apply ifdLoop_nested w tb fuel r1 r2 _ h2
+    have hq : r1.tags.drop r1.pos = r1.tags := by rw [hpos1]; rfl
+    refine ⟨hc1, he1, hexl1, hlim1, by rw [hq]; exact hlay1, by rw [hq]; exact fun x hx => hrootW x (hent x hx), ?_, ?_⟩
+    · rw [hq]; intro x hx
+      obtain ⟨k, hk, hke, hko⟩ := hent x hx
+      have := (hroot.good k x hk hke).2 hko
+      omega
+    · rw [hq]; intro p hp hip x hx
+      obtain ⟨k, _, hke, _⟩ := hent x hx
+      obtain ⟨k', _, hke', _⟩ := hent p hp
+      rw [entry_ifd _ _ _ _ hke, ← entry_ifd _ _ _ _ hke', hip.2.1]
+      exact childType_ne_ifd0 p hip
+
+/-- **A TIFF with IFD0, Exif and GPS directories in a forward layout is read exactly** (DecodeTiff on the whole file F) -/
+theorem decodeTiff_nested (tb : Tables) (F : Bytes) (buffered : Bool) (h : Hdr) (cnt : Nat) (r' : R) (e : Option ErrKind)
+    (W : Tag → Prop) (hsmall : F.length < 2 ^ 32)
+    (w : World F (4 * 1024 * 1024) (if buffered then bufioSize else scratchSize) W)
+    (hroot : DirOK F { off := 0, base := 0, order := h.order, typ := h.firstIfdType, idx := 0 } h.firstIfd cnt (4 * 1024 * 1024)
+      (if buffered then bufioSize else scratchSize) (extent F))
+    (hrootW : ∀ x, IsEntry F { off := 0, base := 0, order := h.order, typ := h.firstIfdType, idx := 0 } h.firstIfd cnt x → W x)
+    (hres : decodeTiff tb F buffered h = .ok (r', e)) : Coh F r' ∧ Exact F r' := by
+  unfold Exif.decodeTiff at hres
+  dsimp only at hres
+  have hc0 : Coh F { rest := F, po := 0, exifLength := 4 * 1024 * 1024, buffered := buffered, ex := { imageType := h.imageType } } :=
+    ⟨by simp, Nat.zero_le _, hsmall⟩
+  have hF := hroot.inFile
+  have hX := hroot.inExif
+  have hde := discard_exact hc0 h.firstIfd (by simp only; omega) (by simp only; omega)
+  have hcd := hc0.discard (h.firstIfd : Int)
+  have hkd := Keep.discard { rest := F, po := 0, exifLength := 4 * 1024 * 1024, buffered := buffered, ex := { imageType := h.imageType } } (h.firstIfd : Int)
+  split at hres
+  · simp only [Outcome.ok.injEq, Prod.mk.injEq] at hres
+    rename_i r1 e1 hdd
+    rw [hdd] at hcd hkd
+    rw [← hres.1]
+    exact ⟨hcd, by intro x hx; rw [hkd.reads] at hx; cases hx⟩
+  · rename_i r1 hdd
+    rw [hdd] at hcd hkd hde
+    dsimp only at hde hcd hkd
+    have hpo : r1.po = h.firstIfd := by rw [hde.2]; simp
+    have hlim : readLimit r1 = (if buffered then bufioSize else scratchSize) := by unfold readLimit; rw [hkd.buffered]
+    exact readIfd_nested tb _ _ r1 r' e cnt (by rw [hkd.exl, hlim]; exact w) hcd (by intro x hx; rw [hkd.reads] at hx; cases hx)
+      hkd.tags hkd.pos (by rw [hpo, hkd.exl, hlim]; exact hroot) (by rw [hpo]; exact hrootW) hres
+
+/-- the capacity condition of `World` for a layout given as a list of at most 83 tags -/
+theorem cap_of_list (F : Bytes) (ws : List Tag) (hlen : ws.length ≤ 83) (W : Tag → Prop) (hW : ∀ x, W x → x ∈ ws)
+    (hpos : ∀ x, W x → 0 < extent F x) : ∀ l : List Tag, LayS (extent F) l → (∀ x ∈ l, W x) → l.length ≤ 83 := by
+  intro l hl hm
+  have hnd : l.Nodup := by
+    unfold LayS at hl
+    unfold List.Nodup
+    refine List.Pairwise.imp_of_mem ?_ hl
+    intro a b ha _ hab heq
+    have := hpos a (hm a ha)
+    rw [← heq] at hab
+    omega
+  exact Nat.le_trans (hnd.length_le_of_subset (fun x hx => hW x (hm x hx))) hlen
 
 end Imeta.Exif
